@@ -409,6 +409,7 @@ func c09Run(c *Ctx) {
 		}
 		c.Do("diff", c09Diff{L: l, R: rr})
 	}
+	heapPatchGen(c, c.N(500)) // heap_share2.go
 }
 
 // ---------------------------------------------------------------- execution
@@ -634,6 +635,8 @@ func c09ModelCompare(c *Ctx, start W, done []c09Op, obs []c09Step) {
 
 func c09Eval(c *Ctx, kind string, raw []byte) {
 	switch kind {
+	case "heap-patch":
+		heapPatchEval(c, raw) // heap_share2.go
 	case "seq":
 		var k c09Seq
 		if err := json.Unmarshal(raw, &k); err != nil {
